@@ -1321,6 +1321,10 @@ class Interp:
                 if dicts:
                     a = [("absent", dicts, norm(left))]
                     p = [("present", dicts, norm(left))]
+                    if len(dicts) == len(rv.refs) and not rv.top and all(d.k.bottom and not d.k.prov and d.v.bottom and not d.fields and d.factory is None for d in dicts):
+                        # nothing is ever stored into these dicts (the heap only grows and the run is repeated until it is stable:
+                        # a store found later re-opens the other branch): the key is absent
+                        return (False, True, p, a) if isinstance(op, ast.In) else (True, False, a, p)
                     return (True, True, p, a) if isinstance(op, ast.In) else (True, True, a, p)
                 res = self.compare(op, lv, rv)
                 t, f = self.truth(res)
